@@ -432,6 +432,8 @@ def compare_dump(orc, dump, what="final", skip_data=False):
 
 def check_case(case, result, skip_data=False):
     """Full judgement of one history. Returns list of Finding."""
+    if result.get("results") is None and "create" in result:
+        result["results"] = []
     if "panic" in result and "results" not in result:
         return [Finding("panic", "harness-level panic: %s" % result["panic"])]
     orc, findings, snaps = run_oracle(case, result)
